@@ -287,6 +287,9 @@ impl Zeroconf {
         for l in q {
             let _ = writeln!(s, "querier {l}");
         }
+        let mut co: Vec<_> = self.cache_only_queriers.iter().cloned().collect();
+        co.sort();
+        let _ = writeln!(s, "cache_only {co:?}");
         let mut q: Vec<String> = self
             .hostname_resolvers
             .iter()
